@@ -522,6 +522,11 @@ def r13_7(ctx):
     marks = [c for c in walk_no_nested(t.node) if is_call_to(c, "_set_transcribed") and c.args and ast.unparse(c.args[0]) == "True"]
     ok = len(marks) == 1 and ast.unparse(marks[0].func.value) == "self._original"
     ctx.check(ok, "Ocp._transcribe marks the original as transcribed", detail="flag set on the copy", expected="self._original._set_transcribed(True)", found="; ".join(ast.unparse(m) for m in marks), fi=t)
+    sct = ctx.scope(t)
+    p1 = [c for c in walk_no_nested(t.node) if is_call_to(c, "_transcribe_recurse", "self") and any(kw.arg == "phase" and isinstance(kw.value, ast.Constant) and kw.value.value == 1 for kw in c.keywords)]
+    ok = len(marks) == 1 and len(p1) == 1 and sct.order[p1[0]] < sct.order[marks[0]]
+    ctx.check(ok, "Ocp._transcribe marks the OCP as transcribed only after phase 1 has succeeded", detail="a transcription that failed half-way is reused by the next solve",
+              expected="_transcribe_recurse(phase=1) before _set_transcribed(True)", found="mark precedes phase 1" if marks and p1 else "missing", fi=t)
 
 
 def param_mutations(ctx, f, pname):
@@ -569,3 +574,9 @@ def r13_8(ctx):
     ok = len(calls) == 1 and [nn.key(a) for a in calls[0].args] == ["self._augmented", "self.master._method", "self._initial"]
     ctx.check(ok, "Stage.set_initial re-applies the whole guess table to the live transcription", detail="write-through call", expected="self._method.set_initial(self._augmented, self.master._method, self._initial)",
               found="; ".join(ast.unparse(c) for c in calls), fi=f)
+
+
+@rule("R13.9", min_instances=12, desc="a set_value after a solve reaches the Opti parameter of that very symbol (writer/reader tables, shared with C09)")
+def r13_9(ctx):
+    from .c09 import r09_1
+    r09_1(ctx)
